@@ -337,3 +337,15 @@ Proof.
   exact (conj H1 (conj H2 (conj H3 (conj H4 (conj H5 (conj H6 (conj H7 (conj H8 (conj H9 (conj H10 H11)))))))))).
 Qed.
 Print Assumptions C09_link_example.
+
+(* the value-size guard of C09_preproc_same_compiled_db follows from the length of the lines
+   (Proofs/TextSizes.v, Proofs/LinkSizes.v): if ParseIP returns 16-byte addresses and every line of the file
+   is at most 2^24 bytes long (short_lineb), every record of the file - lines, range points, feature -
+   has a value shorter than 2^32 bytes *)
+From DnsV Require Import Proofs.LinkSizes.
+Theorem C09_file_values_small : forall o v2 serial sort f,
+  (forall s a, o_parse_ip o s = Some a -> length a = 16%nat) ->
+  forallb short_lineb f = true ->
+  kvs_ok (records bytes (convert_ln o v2 serial) (text_accum o v2 serial (rearrange_total sort)) (features v2) (scan f)).
+Proof. exact file_kvs_ok. Qed.
+Print Assumptions C09_file_values_small.
